@@ -31,11 +31,25 @@ fn sig_of(input: &str, syn1: &str, syn2: &str) -> Option<String> {
         if input.contains(kw) && syn2 == format!("ERR expected identifier, found keyword `{}`", kw) && syn1 != syn2 {
             return Some("edition-2018-keyword-is-an-identifier-for-syn1-only".into());
         }
+        // the same word as a whole instruction argument (`#[into_existing(dyn)]` on a member): syn1 reads a member name,
+        // syn2 an expression, so both accept and the expansions differ
+        if syn1.starts_with("OK") && syn2.starts_with("OK") && syn1 != syn2 && keyword_is_whole_argument(input, kw) {
+            return Some("edition-2018-keyword-is-an-identifier-for-syn1-only".into());
+        }
     }
     if input.contains(" = ") && (syn1.starts_with("ERR") != syn2.starts_with("ERR") || syn1 != syn2) && has_name_value_attr(input) {
         return Some("name-value-attr".into());
     }
     None
+}
+
+/// `kw` stands alone between `(` `|` `,` and `)` `,` somewhere in the input
+fn keyword_is_whole_argument(input: &str, kw: &str) -> bool {
+    input.match_indices(kw).any(|(p, _)| {
+        let before = input[..p].trim_end().chars().last();
+        let after = input[p + kw.len()..].trim_start().chars().next();
+        matches!(before, Some('(') | Some('|') | Some(',')) && matches!(after, Some(')') | Some(','))
+    })
 }
 
 fn has_name_value_attr(input: &str) -> bool {
